@@ -7,8 +7,8 @@
     - `commit`: for small `Plant`s with profiles every on/off pattern is tried — it extends to 0/1 start / shutdown flags
       satisfying the rows of the real `op` that mention bool variables only, and the bounds of the bool variables, iff it
       satisfies the run-length specification with minimum runtime `min_runtime + S + Q`
-      (`EAO.C06P.commit_rows_iff_spec_prof`); the extending flags are exact transition indicators except "both 1" at the
-      last step (`EAO.C06P.flag_rows_iff`)
+      (`EAO.C06P.commit_rows_iff_spec_prof`); the extending flags are exact transition indicators at EVERY step
+      (`EAO.C06P.flag_rows_iff`; the last-step exception was repaired in /repo, commit e7aae05)
     - `ramp`: `_convert_ramp` against the closed forms of `convert_ramp_coarse_int` / `convert_ramp_coarse_volume` /
       `convert_ramp_fine_first` / `_linear` / `_last` / `convert_ramp_identity`
 """
@@ -33,13 +33,13 @@ THEOREMS_C06_PROFILE = [
     (M, 'EAO.C06P.first_step_flags',
      'every feasible point (no 0/1 hypothesis): after being off start_0 = on_0 and shut_0 = 0, after running start_0 = 0 and shut_0 = 1 - on_0'),
     (M, 'EAO.C06P.flags_all_steps',
-     'feasible 0/1 points, every step: the start flag is 1 exactly at off->on, the shutdown flag exactly at on->off - or, only at the last step T-1 >= 1, both flags are 1 and nothing switches'),
+     'feasible 0/1 points, EVERY step (first and last included): the start flag is 1 exactly at off->on, the shutdown flag exactly at on->off'),
     (M, 'EAO.C06P.flags_exact',
-     'at every step but the last (and at step 0 always) both flags are exact transition indicators'),
+     'the same spelled out for every step t < T'),
     (M, 'EAO.C06P.flag_rows_iff',
-     'on a 0/1 point the start/shutdown definition rows, the exclusion rows and the flag bounds hold IFF every step is exact or (last step only) has both flags set without a switch'),
-    (M, 'EAO.C06P.both_flags_at_last_step_feasible',
-     'machine-checked witness (observation P-2): Plant with a one-step start profile on two steps, on 11, start 11, shutdown 01 is feasible, 0/1, not exact at the last step'),
+     'on a 0/1 point the start/shutdown definition rows, the exclusion rows and the flag bounds hold IFF at every step both flags are exact transition indicators'),
+    (M, 'EAO.C06P.both_flags_at_last_step_now_rejected',
+     'the former witness (Plant with a one-step start profile on two steps, on 11, start 11, shutdown 01; repaired in /repo, e7aae05) is rejected, and no feasible point has start and shutdown flag both 1 at any step'),
     (M, 'EAO.C06P.commit_rows_iff_spec_prof',
      'with shutdown variables, all T / R / D / profile lengths / initial states: a pattern extends to 0/1 start and shutdown flags satisfying the generated definition, exclusion, min-runtime and min-downtime rows and the bool bounds iff it satisfies MinUpDown with the runtime increased by S + Q'),
     (M, 'EAO.C06P.commit_rows_iff_automaton_prof',
@@ -171,15 +171,14 @@ def check_commit(c):
         n += 1
         if bool(found) != spec(R, D, tar, tao, [bool(v) for v in on]):
             out.append('pattern %s of %s: rows %s, specification %s' % (on, c, bool(found), not bool(found)))
-        # flags of every extension: exact, or both 1 at the last step without a switch
+        # flags of every extension: exact at every step
         for fl in found:
             for t in range(T):
                 s_exp = (tar == 0 and on[0] == 1) if t == 0 else (on[t - 1] == 0 and on[t] == 1)
                 q_exp = (tar != 0 and on[0] == 0) if t == 0 else (on[t - 1] == 1 and on[t] == 0)
                 exact = fl[t] == int(s_exp) and fl[T + t] == int(q_exp)
-                both = t >= 1 and t + 1 == T and on[t - 1] == on[t] and fl[t] == 1 and fl[T + t] == 1
-                if not (exact or both):
-                    out.append('flags %s of pattern %s of %s at step %d neither exact nor the last-step exception' % (fl, on, c, t))
+                if not exact:
+                    out.append('flags %s of pattern %s of %s at step %d are not the transition indicators' % (fl, on, c, t))
     return n, out
 
 
